@@ -29,7 +29,7 @@ func (c19) Assumptions() []string {
 }
 
 func (c19) Batches(tier string, seed uint64) []core.Batch {
-	return spread("graph", 16, tierN(tier, 120, 2000))
+	return spread("graph", 16, tierN(tier, 700, 4000))
 }
 
 func (c19) Mandatory(tier string) []string {
